@@ -15,14 +15,12 @@
 (* choices, so every relative position of sources and target occurs);      *)
 (* N1,N2 fresh; SU unknown.  Items I1..In, J1,J2 fresh, IU unknown.        *)
 (***************************************************************************)
-EXTENDS MosTheorems, TLC, Json
+EXTENDS MosGen, Json
 
 CONSTANTS
   Classes,      \* message classes to enumerate
   MaxStories,   \* stories in the running order: 0..MaxStories
   Layouts,      \* subset of {"plain","between","trailing","both"}
-  MaxSrc,       \* longest ID list in a message
-  MaxCarried,   \* most stories / items carried by a message
   MaxItems,     \* items in the addressed story (item-level shapes): 0..MaxItems
   ILayouts,     \* subset of {"bare","mixed"}: paragraphs between items or not
   Export        \* TRUE: print PRE/CASE lines
@@ -30,176 +28,9 @@ CONSTANTS
 VARIABLES ro, last
 vars == <<ro, last>>
 
-(* ---------------------------------------------------------------------- *)
-(* Building blocks                                                        *)
-(* ---------------------------------------------------------------------- *)
-SId(i) == "S" \o ToString(i)
-IId(i) == "I" \o ToString(i)
-FreshS == <<"N1", "N2", "N3">>
-FreshI == <<"J1", "J2", "J3">>
-UnknownS == "SU"
-UnknownI == "IU"
-RoIdC == "RO1"
-
-ItemN(id, owner, v) == Leaf("item", id, "x:item." \o owner \o "." \o id \o v)
-ParaN(owner, k)     == Leaf("p", None, "x:p." \o owner \o "." \o ToString(k))
-
-StoryHdr(x, v) == << Leaf("storyID", x, "="),
-                     Leaf("storySlug", None, "x:slug." \o x \o v),
-                     Leaf("mosExternalMetadata", "sch.time", "tm:" \o x \o v) >>
-
-(* a story with two items and a paragraph (story-level shapes)            *)
-StoryN(x, v) == Nd("story", x, None,
-                   StoryHdr(x, v) \o << ItemN("I1", x, v), ParaN(x, 1), ItemN("I2", x, v) >>)
-
-(* a story with items I1..n (item-level shapes)                           *)
-RECURSIVE ItemRun(_, _, _, _)
-ItemRun(owner, i, n, mixed) ==
-  IF i > n THEN <<>>
-  ELSE (IF mixed THEN <<ParaN(owner, i)>> ELSE <<>>) \o <<ItemN(IId(i), owner, "")>>
-       \o ItemRun(owner, i+1, n, mixed)
-StoryI(x, n, il) ==
-  Nd("story", x, None,
-     StoryHdr(x, "") \o ItemRun(x, 1, n, il = "mixed")
-       \o (IF il = "mixed" THEN <<ParaN(x, n+1)>> ELSE <<>>))
-
-Lead == << Leaf("roID", RoIdC, "="), Leaf("roSlug", None, "x:roSlug"),
-           Leaf("roEdStart", None, "ed:0") >>
-Between  == Leaf("roTrigger", None, "x:between")
-Trailing == Leaf("mosExternalMetadata", "sch.ro", "x:trailing")
-
-RECURSIVE StoryRun(_, _, _)
-StoryRun(i, n, between) ==
-  IF i > n THEN <<>>
-  ELSE <<StoryN(SId(i), "")>> \o (IF between /\ i = 1 THEN <<Between>> ELSE <<>>)
-       \o StoryRun(i+1, n, between)
-
-Root == << Leaf("mosID", None, "x:mosID"), Leaf("ncsID", None, "x:ncsID"),
-           Leaf("messageID", "1000", "="), Leaf("roCreate", None, None) >>
-
-(* story-level shape: n stories, layout                                   *)
-ShapeS(n, lay) ==
-  [root |-> Root,
-   kids |-> Lead \o (IF n = 0 /\ lay \in {"between", "both"} THEN <<Between>> ELSE <<>>)
-                 \o StoryRun(1, n, lay \in {"between", "both"})
-                 \o (IF lay \in {"trailing", "both"} THEN <<Trailing>> ELSE <<>>)]
-
-(* item-level shape: S1 with n items, then S2 with the SAME item ids      *)
-ShapeI(n, il) ==
-  [root |-> Root,
-   kids |-> Lead \o << StoryI("S1", n, il), StoryI("S2", n, il), Trailing >>]
-
-(* metadata shape: which replaceable metadata the running order holds     *)
-ShapeM(v) ==
-  [root |-> Root,
-   kids |-> Lead
-            \o (IF v \in {"extA", "extAB"} THEN <<Leaf("mosExternalMetadata", "sch.A", "x:extA")>> ELSE <<>>)
-            \o <<StoryN("S1", "")>>
-            \o (IF v \in {"extAB"} THEN <<Leaf("mosExternalMetadata", "sch.B", "x:extB")>> ELSE <<>>)
-            \o <<StoryN("S2", "")>>
-            \o (IF v # "none" THEN <<Leaf("roTrigger", None, "x:trig")>> ELSE <<>>)]
-
 StoryKeys == { <<"S", n, lay>> : n \in 0..MaxStories, lay \in Layouts }
 ItemKeys  == { <<"I", n, il>>  : n \in 0..MaxItems,   il \in ILayouts }
 MetaKeys  == { <<"M", 0, v>>   : v \in {"none", "extA", "extAB"} }
-
-ShapeOf(key) ==
-  CASE key[1] = "S" -> ShapeS(key[2], key[3])
-    [] key[1] = "I" -> ShapeI(key[2], key[3])
-    [] key[1] = "M" -> ShapeM(key[3])
-
-(* ---------------------------------------------------------------------- *)
-(* Messages                                                               *)
-(* ---------------------------------------------------------------------- *)
-SeqsFromTo(S, lo, hi) == UNION { [1..k -> S] : k \in lo..hi }
-
-Msg(cls, story, item, ids, carried) ==
-  [cls |-> cls, story |-> story, item |-> item, ids |-> ids, carried |-> carried,
-   stok |-> None, hdr |-> <<>>, bodyPos |-> 0, body |-> <<>>]
-
-SRefs(K)  == { RefId(x) : x \in IdSet(K, "story") } \cup { RefId(UnknownS), RefBlank }
-IRefs(S)  == { RefId(x) : x \in IdSet(S, "item") }  \cup { RefId(UnknownI), RefBlank }
-
-(* carried stories: fresh ones, in order N1 N2 ..; optionally one that    *)
-(* duplicates an existing story (variant content)                         *)
-FreshStories(k) == [i \in 1..k |-> StoryN(FreshS[i], "")]
-CarriedStories(K) ==
-  { FreshStories(k) : k \in 1..MaxCarried }
-  \cup { <<StoryN(x, "'")>> \o FreshStories(k) : x \in IdSet(K, "story"), k \in 0..(MaxCarried-1) }
-  \cup { FreshStories(1) \o <<StoryN(x, "'")>> \o FreshStories(k) :
-            x \in IdSet(K, "story"), k \in 0..(MaxCarried-2) }
-FreshItems(k) == [i \in 1..k |-> ItemN(FreshI[i], "msg", "")]
-CarriedItems == { FreshItems(k) : k \in 1..MaxCarried }
-
-SendMsgs(K) ==
-  { [cls |-> "StorySend", story |-> s, item |-> RefAbsent, ids |-> <<>>, carried |-> <<>>,
-     stok |-> None,
-     hdr |-> << Leaf("roID", RoIdC, "="),
-                Leaf("storyID", s.id, "="),
-                Leaf("storySlug", None, "x:sendslug"),
-                Leaf("mosExternalMetadata", "sch.time", "tm:send") >>,
-     bodyPos |-> bp, body |-> b]
-    : s \in SRefs(K), bp \in {1, 4, 5},
-      b \in { <<>>,
-              << Leaf("storyItem", "I9", "x:senditem") >>,
-              << Leaf("p", None, "x:sendp1"), Leaf("storyItem", "I9", "x:senditem"),
-                 Leaf("p", None, "x:sendp2"), Leaf("storyItem", "I8", "x:senditem2") >> } }
-
-StoryMsgs(cls, K) ==
-  CASE cls = "StorySend"   -> SendMsgs(K)
-    [] cls = "StoryAppend" -> { Msg(cls, RefAbsent, RefAbsent, <<>>, c) : c \in CarriedStories(K) }
-    [] cls \in {"StoryDelete", "EAStoryDelete"} ->
-         { Msg(cls, RefAbsent, RefAbsent, ids, <<>>) : ids \in SeqsFromTo(SRefs(K), 1, MaxSrc) }
-    [] cls \in {"StoryInsert", "EAStoryInsert"} ->
-         { Msg(cls, t, RefAbsent, <<>>, c) : t \in SRefs(K) \cup {RefAbsent}, c \in CarriedStories(K) }
-    [] cls = "StoryMove" ->
-         { Msg(cls, RefAbsent, RefAbsent, ids, <<>>) : ids \in SeqsFromTo(SRefs(K), 0, 2) }
-    [] cls = "EAStoryMove" ->
-         { Msg(cls, t, RefAbsent, ids, <<>>) :
-             t \in SRefs(K) \cup {RefAbsent}, ids \in SeqsFromTo(SRefs(K), 1, MaxSrc) }
-    [] cls \in {"StoryReplace", "EAStoryReplace"} ->
-         { Msg(cls, t, RefAbsent, <<>>, c) : t \in SRefs(K), c \in CarriedStories(K) \cup {<<>>} }
-    [] cls = "EAStorySwap" ->
-         { Msg(cls, RefAbsent, RefAbsent, ids, <<>>) : ids \in SeqsFromTo(SRefs(K), 2, 2) }
-
-ItemMsgs(cls, K) ==
-  LET storyRefs == { RefId("S1"), RefId("S2"), RefId(UnknownS), RefBlank }
-      S == K[Idx(K, "story", "S1")].kids
-  IN
-  CASE cls \in {"ItemDelete", "EAItemDelete"} ->
-         { Msg(cls, s, RefAbsent, ids, <<>>) : s \in storyRefs, ids \in SeqsFromTo(IRefs(S), 1, MaxSrc) }
-    [] cls \in {"ItemInsert", "EAItemInsert"} ->
-         { Msg(cls, s, t, <<>>, c) : s \in storyRefs, t \in IRefs(S), c \in CarriedItems }
-    [] cls = "ItemMoveMultiple" ->
-         { Msg(cls, s, RefAbsent, ids, <<>>) :
-             s \in storyRefs \cup {RefAbsent}, ids \in SeqsFromTo(IRefs(S), 1, MaxSrc + 1) }
-    [] cls = "EAItemMove" ->
-         { Msg(cls, s, t, ids, <<>>) :
-             s \in storyRefs, t \in IRefs(S), ids \in SeqsFromTo(IRefs(S), 1, MaxSrc) }
-    [] cls \in {"ItemReplace", "EAItemReplace"} ->
-         { Msg(cls, s, t, <<>>, c) : s \in storyRefs, t \in IRefs(S), c \in CarriedItems \cup {<<>>} }
-    [] cls = "EAItemSwap" ->
-         { Msg(cls, s, RefAbsent, ids, <<>>) : s \in storyRefs, ids \in SeqsFromTo(IRefs(S), 2, 2) }
-
-MetaCarried ==
-  LET opts == { Leaf("roSlug", None, "x:newSlug"),
-                Leaf("roEdStart", None, "ed:1"),
-                Leaf("roChannel", None, "x:newChannel"),
-                Leaf("mosExternalMetadata", "sch.A", "x:newExtA"),
-                Leaf("mosExternalMetadata", "sch.B", "x:newExtB"),
-                Leaf("mosExternalMetadata", "sch.C", "x:newExtC") }
-  IN { <<Leaf("roID", RoIdC, "=")>> \o s : s \in SeqsFromTo(opts, 0, 2) }
-
-OtherMsgs(cls, K) ==
-  CASE cls = "MetaDataReplace" ->
-         { Msg(cls, RefAbsent, RefAbsent, <<>>, c) : c \in MetaCarried }
-    [] cls = "ReadyToAir" -> { Msg(cls, RefAbsent, RefAbsent, <<>>, <<>>) }
-    [] cls = "RunningOrderEnd" ->
-         { Msg(cls, RefAbsent, RefAbsent, <<>>, <<Leaf("roDelete", None, "x:roDelete")>>) }
-    [] cls = "RunningOrderReplace" ->
-         { Msg(cls, RefAbsent, RefAbsent, <<>>,
-               << Leaf("roID", RoIdC, "="), Leaf("roSlug", None, "x:replSlug") >> \o c)
-             : c \in { <<>>, FreshStories(1), <<StoryN("S1", "'")>> \o FreshStories(2) } }
 
 Keys == (IF Classes \cap StoryClasses # {} THEN StoryKeys ELSE {})
         \cup (IF Classes \cap ItemClasses # {} THEN ItemKeys ELSE {})
@@ -207,7 +38,7 @@ Keys == (IF Classes \cap StoryClasses # {} THEN StoryKeys ELSE {})
 
 MsgsFor(cls, key, K) ==
   CASE cls \in StoryClasses /\ key[1] = "S" -> StoryMsgs(cls, K)
-    [] cls \in ItemClasses  /\ key[1] = "I" -> ItemMsgs(cls, K)
+    [] cls \in ItemClasses  /\ key[1] = "I" -> ItemMsgs(cls, K, "S1")
     [] cls \in OtherClasses /\ key[1] \in {"M"} -> OtherMsgs(cls, K)
     [] cls \in OtherClasses /\ key = <<"S", 2, "plain">> /\ cls # "MetaDataReplace" -> OtherMsgs(cls, K)
     [] OTHER -> {}
